@@ -187,6 +187,10 @@ class Opaque:
         return hash(("Opaque", self.n))
 
 
+class MyList(list):
+    """a list subclass (its repr is the one of a list)"""
+
+
 class Vec:
     """plain class whose __repr__ is code and uses repr() for its children"""
 
@@ -294,7 +298,7 @@ def mutate_in_place(v, depth=0):
 
 
 __all__ = [
-    "IdentityEq", "LossyCopy", "SelfCopy", "RaisingEq", "Decimal", "nan", "mutate_in_place", "APriv", "PAlias", "DInit", "make_dinit",
+    "IdentityEq", "LossyCopy", "SelfCopy", "RaisingEq", "MyList", "Decimal", "nan", "mutate_in_place", "APriv", "PAlias", "DInit", "make_dinit",
     "Color", "Level", "Perm", "Outer", "Point", "FPoint", "Box", "APoint", "AFrozen",
     "PModel", "NT", "TNT", "Opaque", "Vec", "defaultdict", "inf", "Hidden", "AHidden", "PHidden", "PExtra", "IVar", "SubPoint", "Point3", "IPerm", "OrderedDict", "Counter",
 ]
